@@ -433,42 +433,61 @@ func init() {
 }
 
 func runR09_9(c *Ctx, r *R) {
-	f := r.Need("mpx", "conn.run")
-	if f == nil {
+	if r.Need("mpx", "conn.run") == nil {
 		return
 	}
-	key := fnKey(f) + "/close-before-wait"
-	var waits, closes []*ssa.Defer
-	for _, call := range callsIn(f, false) {
-		d, ok := call.(*ssa.Defer)
-		if !ok {
+	// the function that waits for the loops: conn.run, or a helper it hands the loops to (conn.runLoops)
+	found := false
+	for _, f := range c.SrcFuncs("mpx") {
+		if strings.HasPrefix(baseName(c.Fset.Position(f.Pos()).Filename), "test_") || !typeIsRecv(f, "conn") {
 			continue
 		}
-		if o := calleeObj(d); o != nil && strings.HasPrefix(o.Name(), "StopWait") {
-			waits = append(waits, d)
-		}
-		if calleeLabel(d) == "close" {
-			closes = append(closes, d)
-		}
-	}
-	if len(waits) == 0 {
-		// no deferred wait: look for a direct wait followed by nothing - the shape changed, say so
-		r.Unk(key, f.Pos(), "conn.run no longer defers a wait for its loops (anchor lost)")
-		return
-	}
-	for _, w := range waits {
-		ok := false
-		for _, cl := range closes {
-			if dominatesInstr(w, cl) {
-				ok = true
+		key := fnKey(f) + "/close-before-wait"
+		var waits, closes []*ssa.Defer
+		for _, call := range callsIn(f, false) {
+			d, ok := call.(*ssa.Defer)
+			if !ok {
+				continue
+			}
+			if o := calleeObj(d); o != nil && strings.HasPrefix(o.Name(), "StopWait") {
+				waits = append(waits, d)
+			}
+			if calleeLabel(d) == "close" {
+				closes = append(closes, d)
 			}
 		}
-		if ok {
-			r.OK(key, w.Pos(), "a close() deferred after the wait runs before it and releases a loop blocked in socket I/O")
-		} else {
-			r.Bad(key, w.Pos(), "no close() is deferred after the deferred wait for the loops: when one loop ends while the other is blocked in a socket write, run() waits forever, the closed flag is never set, close listeners never fire and handler contexts are never cancelled")
+		for _, w := range waits {
+			found = true
+			ok := false
+			for _, cl := range closes {
+				if dominatesInstr(w, cl) {
+					ok = true
+				}
+			}
+			if ok {
+				r.OK(key, w.Pos(), "a close() deferred after the wait runs before it and releases a loop blocked in socket I/O")
+			} else {
+				r.Bad(key, w.Pos(), "no close() is deferred after the deferred wait for the loops: when one loop ends while the other is blocked in a socket write, run() waits forever, the closed flag is never set, close listeners never fire and handler contexts are never cancelled")
+			}
 		}
 	}
+	if !found {
+		// no deferred wait: the shape changed, say so
+		r.Unk("mpx.conn.run/close-before-wait", 0, "no method of conn defers a wait for the receive/send loops (anchor lost)")
+	}
+}
+
+// typeIsRecv: f is a method of the named type (pointer or value receiver) of its package.
+func typeIsRecv(f *ssa.Function, name string) bool {
+	if f.Signature.Recv() == nil {
+		return false
+	}
+	t := f.Signature.Recv().Type()
+	if p, ok := t.(*types.Pointer); ok {
+		t = p.Elem()
+	}
+	n, ok := t.(*types.Named)
+	return ok && n.Obj().Name() == name
 }
 
 func isConstTrueArg(call ssa.CallInstruction) bool {
